@@ -874,6 +874,10 @@ def check_C02(tier, seed):
            "consts": [], "overrides": [], "functions": [],
            "entries": [{"name": "cs_main", "stage": "compute", "params": [], "body": [{"k": "access", "g": "growable", "how": "load"}, {"k": "access", "g": "odd", "how": "array_length"}], "wg": ["1"]}]}
     ctx.append({"id": "rt-header", "family": "runtime-array-with-header", "S": rtS, "opts": F.opts(enc=True, mv="glam")})
+    for i, src_ in enumerate(["@group(0) @binding(0) var texs: binding_array<texture_2d<f32>, 4>;\n@group(0) @binding(1) var smp: sampler;\n@fragment fn fs_main() -> @location(0) vec4<f32> { return textureSample(texs[1], smp, vec2<f32>(0.5)); }\n",
+                              "@group(0) @binding(0) var smps: binding_array<sampler, 2>;\n@group(0) @binding(1) var t: texture_2d<f32>;\n@fragment fn fs_main() -> @location(0) vec4<f32> { return textureSample(t, smps[0], vec2<f32>(0.5)); }\n",
+                              "@group(0) @binding(0) var<storage, read_write> counter: atomic<u32>;\n@compute @workgroup_size(1) fn cs_main() { atomicAdd(&counter, 1u); }\n"]):
+        ctx.append({"id": "raw-unsupported-%d" % i, "family": "resource-kinds-outside-the-feature-set", "wgsl": src_, "opts": F.opts()})
     ctx.append({"id": "twin-groups", "family": "groups-with-equal-resources", "S": F.twin_groups_shader(), "opts": F.opts()})
     # buffers above 64 KiB (no limit of any device may leak into the layout)
     for i, (sp, n_) in enumerate([("uniform", 4097), ("uniform", 4096), ("storage_r", 4097), ("storage_rw", 70000)]):
